@@ -24,6 +24,10 @@ import YarlProofs.C04Idn
   (≤ 65535, not the scheme default).
   KNOWN FINDINGS of C04 (strings canonical in the words of the property that ARE changed; each is a theorem below):
   F-C04-empty-path, F-C04-single-slash, F-C04-empty-delims, F-C04-empty-authority, F-C04-colon-password.
+
+  Continued in C04HeadlineMore.lean (theorems that need a module which imports this file): C04Bracket.lean imports this
+  file, so the identity for BRACKETED hosts that are not IPv6 addresses (IPvFuture "[v1.a:b]", "[g::1]", "[a:b]";
+  GAPS 1) is stated there as `C04_headline_…_bracketed_…`.
 -/
 set_option linter.unusedVariables false
 namespace Yarl
@@ -94,7 +98,8 @@ theorem C04_headline_every_canonical_string (e : Env) (s : Str) (p : Parts)
   have := C04_roundTrip_general e p.scheme p.netloc p.path p.query p.fragment h_canon
   rwa [canonText, hs] at this
 
-/-! ### "lower-case … host": which hosts are covered (closes GAPS 1 except IPvFuture and the empty host) -/
+/-! ### "lower-case … host": which hosts are covered (closes GAPS 1 except the empty host; bracketed non-IPv6 hosts —
+    IPvFuture — are in C04HeadlineMore.lean) -/
 
 /-- "lower-case … host" is `HostFix o h` (= `_encode_host(h)` is `h` again, in brackets when it contains ':').  It
     holds for EVERY non-empty lower-case host text without ':' (`hostChar` = visible ASCII, no upper-case letter,
@@ -327,12 +332,25 @@ GAPS:
     hosts ("xn--…": any text with `IdnaAnswerSane`, no assumption about the `idna` package; that the library's own
     answer for a non-ASCII host is such a text is the ASSUMPTION `IdnaSaneAt`, C16Idn.lean, not proved —
     C04_headline_idn_fails_for_upper_case_answer shows what a hostile package would do).
-    STILL no identity theorem for: bracketed non-IPv6 hosts (IPvFuture; `HostFix.notV` excludes a host with ':'
-    that starts with 'v'), the empty host with a port (":80"; `HostFix` asks a non-empty host).
+    Bracketed non-IPv6 hosts (IPvFuture "[v1.a:b]", "[g::1]", "[a:b]", "[1.2.3.4%a:b]"; `HostFix.notV` excludes a
+    host with ':' that starts with 'v') — CLOSED by C04_identity_generalB, C04_roundTrip_generalB,
+    C04_bracket_every_canonical_string, C04_bracket_identity (C04Bracket.lean, which IMPORTS this file, so the headline
+    theorems are in the companion file C04HeadlineMore.lean), see C04_headline_canon_netloc_bracketed_spec,
+    C04_headline_canonical_string_unchanged_bracketed_host, C04_headline_every_canonical_string_bracketed_host,
+    C04_headline_canonical_bracketed_authority_unchanged, C04_headline_bracketed_host_families.  Proved: with the
+    authority clause extended to `[user[:password]@][t][:port]` around a lower-case bracketed non-IPv6 text `t`
+    (`HostFixB`; `BracketText t` suffices), any `UserInfoOK` userinfo, any non-default port ≤ 65535 and any canonical
+    path / query / fragment, str(URL(s)) == s and the parsed URL has exactly the five components.  Both clauses are
+    needed: upper case is lowered (C04_headline_bracketed_fails_for_upper_case); a default port is dropped — and, as the
+    module reports, WITHOUT a ':' in the host the BRACKETS go with it: "https://[v1.a]:443/" ↦ "https://v1.a/"
+    (C04_headline_bracketed_fails_for_default_port; both strings are outside "already canonical", no finding for C04).
+    Not covered in this family: a space inside the brackets (outside `BracketText`, C03Headline.lean GAPS 2).
+    STILL no identity theorem for: the empty host with a port (":80"; `HostFix` asks a non-empty host).
  2. "For every string": C04_headline_every_canonical_string (new) is string-quantified but asks the caller for
     `splitUrl e.o s = .ok p` and `CanonString` of the PARSED parts; there is no decision procedure / sound Boolean
     checker for the whole of `CanonString` (C04_canonClauses covers the eight component clauses, not
-    `CanonNetloc`), so instantiating it on a concrete string still needs a hand-made `authText` decomposition.
+    `CanonNetloc`), so instantiating it on a concrete string still needs a hand-made `authText` decomposition (for a
+    bracketed non-IPv6 host: an `authTextB` decomposition and `CanonNetlocB`, C04HeadlineMore.lean — same remark).
  3. Strings canonical in the words of the property but changed by str(URL(s)) — the property text has no exception
     for them.  ALL are now in KNOWN_FINDINGS.jsonl and each is a theorem here: empty path before '?'/'#' under an
     authority (F-C04-empty-path, C04_headline_fails_for_empty_path); authority-taking scheme without "//"
